@@ -26,6 +26,8 @@ PLAIN = ['a', 'prod', 'us-west-2b', 'x y', 'AWS', 'v1.2', 'héllo', '10', 'true'
 LONG = ['Orders, billing and invoices, archived monthly', 'first, second, third and the rest of them', 'a, b',
         'eu-west-1a, eu-west-1b, eu-west-1c, eu-central-1a', 'nothing special but quite long all the same, really']
 TRICKY = [' padded ', 'quote"inside', 'trailing\\', ' lead', 'trail ', '"']
+# strings outside ASCII - two-, three- and four-byte characters, several of them, at the end of the value and of the file
+UNICODE = ['東京リージョン', 'Zürich–Genève', 'naïve café', '🚀 launch', 'Ünïcödé', 'данные', 'µ', 'ab€', '日本']
 
 
 def problematic(v):
@@ -66,9 +68,14 @@ def gen_template(rng, k):
     kind = rng.choice(['plain', 'plain', 'plain', 'nonuniform', 'tricky', 'mixed', 'long'])
     if k % 9 == 4:
         kind = 'long'
+    if k % 9 == 7:
+        kind = 'unicode'
     ntypes = rng.choice([1, 2, 3])
     types = rng.sample(TYPES, ntypes)
     layout = {t: {p: rng.choice(['str', 'str', 'int', 'bool', 'list', 'map']) for p in rng.sample(PROPS, rng.choice([1, 2, 3]))} for t in types}
+    if kind == 'unicode':
+        for t in types:
+            layout[t]['Name'] = 'str'      # at least one string property per type
     res = {}
     for i in range(rng.choice([1, 2, 3, 4, 5]) if kind != 'long' else rng.choice([3, 4, 5])):
         t = rng.choice(types)
@@ -79,6 +86,8 @@ def gen_template(rng, k):
             if kind == 'mixed' and rng.random() < 0.4:
                 vk = 'list' if vk in ('str', 'int', 'bool') else 'int'
             props[p] = gen_value(rng, vk, kind == 'tricky')
+            if kind == 'unicode' and vk == 'str':
+                props[p] = UNICODE[(i + len(p) + k) % len(UNICODE)]
             if kind == 'long' and vk == 'str':
                 props[p] = LONG[(i + len(p)) % len(LONG)] if rng.random() < 0.9 else rng.choice(PLAIN)
         r = {'Type': t}
